@@ -367,6 +367,7 @@ def history_free(ctx: Ctx, prop: str):
     res.instance("HISTORY-FREE", f"{prop}: functions of the anchored modules examined", sample={"functions": n_funcs, "modules": files})
     mask_argmax(ctx, prop, files)
     sentinel_intact(ctx, prop, files)
+    zero_is_a_value(ctx, prop, files)
     if n_funcs == 0:
         raise AnalysisError("HISTORY-FREE: no function of the anchored modules was examined")
 
@@ -571,3 +572,52 @@ def sentinel_intact(ctx: Ctx, prop: str, files):
                     if not safe:
                         ctx.finding("SENTINEL-INTACT", f, st, f"`{src(st)[:70]}` in {f.name}: `{p_}` may be the string sentinel {sorted(strings)} (it is compared with it here or in a routine it is handed to), and {call_name(st.value)}(\"{sorted(strings)[0]}\") is a collection of characters: the comparison with the sentinel then fails silently and the request it stands for is ignored", construct=f"{f.name}: {p_} = {call_name(st.value)}({p_}) with a string sentinel")
     res.instance("SENTINEL-INTACT", f"{prop}: parameters with a string sentinel in the anchored modules", sample={"parameters": n})
+
+
+# ---------------------------------------------------------------------------------
+# ZERO-IS-A-VALUE: an axis / mode / position option is tested against None, not by truthiness
+# ---------------------------------------------------------------------------------
+_POSITION_PARAMS = {"axis", "mode", "skip", "skip_matrix", "skip_factor", "position", "index"}
+
+
+def zero_is_a_value(ctx: Ctx, prop: str, files):
+    """0 is a legitimate axis, mode or position.  A parameter of that kind whose default is None, tested by its
+    truth value (`if axis:`, `x if axis else y`, `axis and ...`, `not axis`), takes the None route for 0."""
+    repo, res = ctx.repo, ctx.res
+    res.rule("ZERO-IS-A-VALUE", "in the anchored modules a parameter that names an axis, a mode or a position (axis, mode, skip, skip_matrix ...) and defaults to None is never tested by its truth value: `if axis:` treats axis=0 like axis=None; the test is `is None` / `is not None`", floor=1)
+    n = 0
+    for rel in files:
+        mod = next((m for m in repo.modules.values() if m.rel == rel), None)
+        if mod is None:
+            continue
+        for f in [g for g in repo.functions.values() if g.module is mod]:
+            ps = [p_ for p_ in f.all_params if p_ in _POSITION_PARAMS and p_ in f.defaults and isinstance(f.defaults[p_], ast.Constant) and f.defaults[p_].value is None]
+            if not ps:
+                continue
+            stored = {x.id for x in own_scope_nodes(f.node) if isinstance(x, ast.Name) and isinstance(x.ctx, ast.Store)}
+            for p_ in ps:
+                if p_ in stored:
+                    continue  # re-bound (normalised) before use: the later tests are about another value
+                n += 1
+                bad = []
+
+                def truth_positions(t):
+                    """names tested by truth value inside a condition"""
+                    if isinstance(t, ast.Name):
+                        if t.id == p_:
+                            bad.append(t)
+                    elif isinstance(t, ast.BoolOp):
+                        for v in t.values:
+                            truth_positions(v)
+                    elif isinstance(t, ast.UnaryOp) and isinstance(t.op, ast.Not):
+                        truth_positions(t.operand)
+
+                for x in own_scope_nodes(f.node):
+                    if isinstance(x, (ast.If, ast.While, ast.IfExp, ast.Assert)):
+                        truth_positions(x.test)
+                    elif isinstance(x, ast.BoolOp) and any(is_name(v, p_) for v in x.values[:-1]):
+                        bad.append(x)  # `axis or default`, `axis and f(axis)` as a value
+                res.instance("ZERO-IS-A-VALUE", f"{f.qname}({p_}=None)", sample={"truth_tests": len(bad), "ok": not bad})
+                for b in bad[:1]:
+                    ctx.finding("ZERO-IS-A-VALUE", f, b, f"{f.name} tests its `{p_}` parameter by truth value (`{src(b)[:50]}`): {p_}=0 -- the first axis / mode / position -- is falsy and takes the route meant for {p_}=None, so the result for {p_}=0 is computed as if no {p_} had been given", construct=f"{f.name}: truth test of {p_}")
+    res.instance("ZERO-IS-A-VALUE", f"{prop}: position-like parameters defaulting to None in the anchored modules", sample={"parameters": n})
